@@ -67,6 +67,9 @@ func startServer(logger interface {
 	return s
 }
 
+// errServeGone: Serve has returned although nobody cancelled it or closed its listener.
+var errServeGone = fmt.Errorf("Serve has returned: the server no longer accepts connections")
+
 var defaultRemote = &net.TCPAddr{IP: net.IPv4(192, 0, 2, 10), Port: 40000}
 
 // connect offers a new scripted connection and waits until the server is reading from it (or closed it).
@@ -78,11 +81,24 @@ func (s *libServer) connect(remote net.Addr) (*transport.Conn, error) {
 	s.mu.Lock()
 	s.conns = append(s.conns, c)
 	s.mu.Unlock()
-	s.ln.Offer(c)
-	if !c.AwaitQuiescentOrClosed(watchdog) {
-		return c, fmt.Errorf("HARNESS-BUG/INCONCLUSIVE: server never started reading connection %d", c.ID)
+	select {
+	case <-s.done:
+		return c, errServeGone
+	default:
 	}
-	return c, nil
+	s.ln.Offer(c)
+	// poll in short waits so that a Serve that has returned is noticed instead of waiting for the watchdog
+	for waited := time.Duration(0); waited < watchdog; waited += 200 * time.Millisecond {
+		if c.AwaitQuiescentOrClosed(200 * time.Millisecond) {
+			return c, nil
+		}
+		select {
+		case <-s.done:
+			return c, errServeGone
+		default:
+		}
+	}
+	return c, fmt.Errorf("HARNESS-BUG/INCONCLUSIVE: server never started reading connection %d", c.ID)
 }
 
 // stop cancels the server, lets Accept time out, ends every connection and waits for Serve.
